@@ -273,12 +273,12 @@ func run(c *vf.Ctx) {
 	})
 
 	c.Extra("git_invocations", gitx.Calls.Load())
-	c.Floor("hostile inputs evaluated", c.Counter("accepted_by_some_mode")+c.Counter("rejected_by_all_modes")+c.Counter("idxread_inputs"), c.N(1400, 30000))
-	c.Floor("entry-point runs", c.Counter("mode_runs"), c.N(5500, 120000))
+	c.Floor("hostile inputs evaluated", c.Counter("accepted_by_some_mode")+c.Counter("rejected_by_all_modes")+c.Counter("idxread_inputs"), c.N(1400, 12000))
+	c.Floor("entry-point runs", c.Counter("mode_runs"), c.N(5500, 48000))
 	c.Floor("mutation classes", c.SeenCount("classes"), c.N(60, 70))
-	c.Floor("inputs accepted by go-git and checked against git", c.Counter("both_accept")+c.Counter("accepts_git_rejects"), c.N(150, 2000))
-	c.Floor("objects re-hashed independently", c.Counter("objects_rehashed"), c.N(10000, 200000))
-	c.Floor("git verdicts", c.Counter("git_confirmations"), c.N(250, 3000))
+	c.Floor("inputs accepted by go-git and checked against git", c.Counter("both_accept")+c.Counter("accepts_git_rejects"), c.N(150, 1000))
+	c.Floor("objects re-hashed independently", c.Counter("objects_rehashed"), c.N(10000, 150000))
+	c.Floor("git verdicts", c.Counter("git_confirmations"), c.N(250, 1500))
 	c.Floor("reads through git's idx over corrupted packs", c.Counter("idxread_reads"), c.N(2000, 40000))
 	c.Floor("children completed", c.Counter("children_ok"), nBatches)
 	c.Assume("git 2.39.5 `index-pack --stdin` (no --strict, no fsck) is the structural acceptor: it checks signature/version, entry types, inflation and declared sizes, delta offsets/bases and application, completeness (no unresolved deltas), object count and trailer; trailing bytes after the trailer are ignored by both sides on a stream")
@@ -514,7 +514,7 @@ func generate(c *vf.Ctx, sps []*seedPack) []Mut {
 	}
 	r := c.Rand("gen")
 	quick := c.Quick()
-	payloadFlips := c.N(3, 15) // per entry
+	payloadFlips := c.N(3, 12) // per entry
 	idxreadFlips := c.N(2, 8)  // per entry
 	pick := func(n, k int) []int { // k distinct indexes out of n (all when thorough)
 		if !quick || k >= n {
@@ -549,8 +549,8 @@ func generate(c *vf.Ctx, sps []*seedPack) []Mut {
 			add(Mut{Seed: si, Op: "version", A: v, Fix: true})
 		}
 		for ei, e := range sp.Entries {
-			if quick && (ei+si)%4 != 0 && ei > 3 {
-				continue // quick tier: every fourth entry
+			if ei > 3 && (quick && (ei+si)%4 != 0 || !quick && (ei+si)%2 != 0) {
+				continue // quick tier: every fourth entry; thorough: every other entry
 			}
 			// every bit of the header (type/size varint, ofs varint) for a third of the entries (all when thorough), 3 random bits otherwise; sampled bytes of a ref base
 			exhaustive := !quick || (ei+si)%4 == 0
